@@ -8,6 +8,7 @@ def step (line : String) : String :=
   | "c16" :: args => Val2idx.run args
   | "c15" :: args => Registry.run args
   | "c12" :: args => TimeDec.run args
+  | "c02" :: args => PFile.runC02 args
   | _ => "err bad-stream"
 
 partial def loop (h : IO.FS.Stream) : IO Unit := do
